@@ -149,7 +149,11 @@ def find_region(text, within, start, end, pick=None):
 
 
 def cut_slice(text, sl):
-    parts = ([sl["items"]] if sl.get("items") else []) + [CFG, sl["header"] + " {", sl.get("pre", "")]
+    # every wrapper can be switched off by `--cfg verif_noslice_<name>` (set when its region is lost or no longer
+    # compiles in the wrapper), so that one reshaped region does not take the other obligations down with it
+    cfg = f"#[cfg(all(any(kani, verif_replay), not(verif_noslice_{sl['name']})))]"
+    items = sl["items"].replace(CFG, cfg) if sl.get("items") else None
+    parts = ([items] if items else []) + [cfg, sl["header"] + " {", sl.get("pre", "")]
     meta = {"name": sl["name"], "file": sl["file"], "regions": [], "drops": sl.get("drops", "")}
     glue = sl.get("between", [])
     for idx, rg in enumerate(sl["regions"]):
